@@ -30,6 +30,29 @@ type CallSiteSpec struct {
 	Clause   *Clause
 	UseLemma bool // the clause is a lemma application: its instance is assumed here
 	Assume   bool // the clause is assumed at this site (an explicit, listed assumption)
+	// AssumeAfter: the clause (over `result`) is assumed right after the call
+	// returns (an explicit, listed assumption about the callee's result)
+	AssumeAfter bool
+}
+
+// RecvSiteSpec: what is known at a channel receive. Either an assumption
+// about the received value `m` (listed in evidence), or a list of local
+// variables (living in heap cells because a closure captures them) that no
+// other goroutine writes any more once a receive has returned.
+type RecvSiteSpec struct {
+	Clause *Clause
+	Stable []string
+	Elem   string // optional: element type of the channels the clause is about
+}
+
+// MapInv: an invariant of the values stored in every map of a given type,
+// checked at every MapUpdate under contract and assumed at lookups/ranges.
+type MapInv struct {
+	TypeText string
+	Clause   *Clause
+	Pkg      string
+	File     string
+	Line     int
 }
 
 type Contract struct {
@@ -63,6 +86,12 @@ type Contract struct {
 	DynPure    bool      // calls of function values are assumed not to touch modelled state
 	PerReturn  bool      // postconditions are checked at every return statement separately
 	UseLemmas  []*Clause // lemma instances assumed at exit (the lemma itself is proved separately)
+	ReturnSites []*Clause      // clauses over locals and results, checked at every return statement
+	RecvSites   []*RecvSiteSpec
+	// Partial: only the contract-level clauses of this function are claimed;
+	// its run-time safety obligations (nil dereference, callee preconditions,
+	// ...) are assumed, not proved, and listed as such in evidence.
+	Partial bool
 }
 
 // CallCount declares a ghost counter: number of calls of Callee made by the
@@ -102,6 +131,7 @@ type FieldInv struct {
 
 type ContractDB struct {
 	FieldInvs []*FieldInv
+	MapInvs   []*MapInv
 	Immutable []ImmutableDecl
 	SliceNorm []ImmutableDecl // slice-typed fields whose stored value always has offset 0
 	Funcs  map[string]*Contract
@@ -135,6 +165,7 @@ var clauseKeywords = map[string]bool{
 	"on": true, "inline": true, "maypanic": true, "nonblocking": true, "callsite": true, "sendsite": true,
 	"props": true, "nosweep": true, "assume": true, "iface": true, "lemma": true, "hyp": true, "concl": true,
 	"dispatch": true, "end": true, "fieldinv": true, "callcount": true, "captures": true, "dyncalls-pure": true, "immutable": true, "slicenorm": true, "opaque": true, "perreturn": true, "uselemma": true,
+	"returnsite": true, "recvsite": true, "mapinv": true, "partial": true,
 }
 
 // parseContractFile reads one contract file. pkgPath is the import path of
@@ -281,6 +312,56 @@ func (db *ContractDB) parseContractFile(path, pkgPath string) {
 			if cur != nil {
 				cur.PerReturn = true
 			}
+		case "partial":
+			if cur != nil {
+				cur.Partial = true
+			}
+		case "returnsite":
+			if cur == nil {
+				continue
+			}
+			body := strings.TrimSpace(strings.TrimPrefix(strings.TrimSpace(it.text), ":"))
+			if c := mkClause(item{it.kw, body, it.line}); c != nil {
+				cur.ReturnSites = append(cur.ReturnSites, c)
+			}
+		case "recvsite":
+			if cur == nil {
+				continue
+			}
+			elem := ""
+			body := strings.TrimSpace(it.text)
+			if j := strings.Index(body, ":"); j >= 0 {
+				elem = strings.TrimSpace(body[:j])
+				body = strings.TrimSpace(body[j+1:])
+			}
+			if strings.HasPrefix(body, "stable ") {
+				cur.RecvSites = append(cur.RecvSites, &RecvSiteSpec{Stable: strings.Fields(strings.ReplaceAll(body[7:], ",", " ")), Elem: elem})
+				continue
+			}
+			// "[label] assume expr" or "assume [label] expr"
+			label := ""
+			for k := 0; k < 2; k++ {
+				if strings.HasPrefix(body, "[") {
+					if j := strings.Index(body, "]"); j > 0 {
+						label = body[:j+1] + " "
+						body = strings.TrimSpace(body[j+1:])
+					}
+				}
+				body = strings.TrimSpace(strings.TrimPrefix(body, "assume "))
+			}
+			if c := mkClause(item{it.kw, label + body, it.line}); c != nil {
+				cur.RecvSites = append(cur.RecvSites, &RecvSiteSpec{Clause: c, Elem: elem})
+			}
+		case "mapinv":
+			j := strings.LastIndex(it.text, " : ")
+			if j < 0 {
+				db.Errors = append(db.Errors, fmt.Sprintf("%s:%d: mapinv needs 'maptype : expr'", path, it.line))
+				continue
+			}
+			if c := mkClause(item{it.kw, it.text[j+3:], it.line}); c != nil {
+				db.MapInvs = append(db.MapInvs, &MapInv{TypeText: strings.TrimSpace(it.text[:j]), Clause: c, Pkg: pkgPath, File: path, Line: it.line})
+			}
+			cur, curLoop, curLemma = nil, nil, nil
 		case "dyncalls-pure":
 			if cur != nil {
 				cur.DynPure = true
@@ -343,8 +424,11 @@ func (db *ContractDB) parseContractFile(path, pkgPath string) {
 				useLemma = true
 				body = strings.TrimSpace(body[4:])
 			}
-			assumeHere := false
-			if strings.HasPrefix(body, "assume ") {
+			assumeHere, assumeAfter := false, false
+			if strings.HasPrefix(body, "assume-after ") {
+				assumeAfter = true
+				body = strings.TrimSpace(body[13:])
+			} else if strings.HasPrefix(body, "assume ") {
 				assumeHere = true
 				body = strings.TrimSpace(body[7:])
 			}
@@ -353,7 +437,7 @@ func (db *ContractDB) parseContractFile(path, pkgPath string) {
 			if c == nil {
 				continue
 			}
-			cs := &CallSiteSpec{Callee: strings.TrimSpace(it.text[:j]), Clause: c, UseLemma: useLemma, Assume: assumeHere}
+			cs := &CallSiteSpec{Callee: strings.TrimSpace(it.text[:j]), Clause: c, UseLemma: useLemma, Assume: assumeHere, AssumeAfter: assumeAfter}
 			if it.kw == "callsite" {
 				cur.CallSites = append(cur.CallSites, cs)
 			} else {
